@@ -35,3 +35,6 @@ package dns
 //@ func (*Resolver).sendQueriesUDP
 //@   requires !isnil(r)
 //@   callsite parseMsg: conn.mappedEq(payloadSourceAddrPort, r.serverAddrPort)
+
+//@ func (*ResolverConfig).NewSimpleResolver
+//@   noinline
